@@ -214,8 +214,8 @@ var boxLonghandRe = regexp.MustCompile(`^(margin-(top|right|bottom|left)|padding
 var lchPctChromaRe = regexp.MustCompile(`(?i)\blch\(\s*[^\s,)]+\s+[0-9.]+%`)
 var ampInPseudoArgRe = regexp.MustCompile(`:(is|not|where)\([^{}]*&`)
 
-// a nested rule whose whole selector is "&"
-var bareAmpRuleRe = regexp.MustCompile(`(^|[{};])\s*&\s*\{`)
+// a nested rule whose whole selector (list) is "&" ("&, &" is deduplicated to "&" first)
+var bareAmpRuleRe = regexp.MustCompile(`(^|[{};])\s*&(\s*,\s*&)*\s*\{`)
 
 func insetLowered(o glueOpts) bool {
 	if ok, set := o.supported["inset-property"]; set && !ok {
